@@ -14,10 +14,10 @@ pub fn spec() -> PropSpec {
     PropSpec {
         id: "C02",
         level: "model_checking",
-        rule: "controlled-scheduler exploration of the REAL checker and VM under the rayon stand-in. Corpus: hand-built checker inputs with >= 2 solutions, graph levels with >= 2 nodes, node programs forking compute children (three nested levels of parallelism), two failing nodes in one level, several unsatisfied leaves, several data outputs; a deterministic thinning of the C01 encoding enumeration (cases with >= 2 solutions); VM programs whose compute children differ by index (memory sizes, final pcs, failing children, loop counters). Mode A: completion orders of every parallel section, every pick costs one deviation, deviation bound 2 (quick) / 3 (thorough) — all 6 orders of any 3-task section are within bound 2; mode B: op-granular preemptive interleavings (shuttle runtime, own DFS scheduler) with preemption bound 1 (quick) / 2 (thorough, capped); mode S: the hand-built corpus again in a build where essential-vm and essential-check are compiled from a token-rewritten copy of /repo's sources whose std::sync Mutex/RwLock/Condvar/Once/OnceLock/atomic/mpsc are shuttle's, so every synchronisation operation inside the checked crates (not only VM-op and task boundaries) is a scheduling point; every departure from the default schedule costs one deviation, bound 2 (quick) / 3 (thorough, capped). Oracle: the observation under every schedule equals the observation of the sequential (index-order) run: Ok/Err class, failing solution and node indices in order, gas, data outputs in order, computed mutations in order; for Vm::exec Ok(gas)+final pc/stack/memory or Err+index. Then the same inputs run free under real rayon pools of 1,2,3,4,8,16 threads x 3 (conformance of the stand-in): every observed result must be the one the exploration produced. states = distinct inputs, transitions = schedules executed, traces_validated_against_impl = schedules + free-running real-rayon runs. non-trivial = input with >= 2 schedules; distinct by input",
+        rule: "controlled-scheduler exploration of the REAL checker and VM under the rayon stand-in. Corpus: hand-built checker inputs with >= 2 solutions, graph levels with >= 2 nodes, node programs forking compute children (three nested levels of parallelism), two failing nodes in one level, several unsatisfied leaves, several data outputs; a deterministic thinning of the C01 encoding enumeration (cases with >= 2 solutions); VM programs whose compute children differ by index (memory sizes, final pcs, failing children, loop counters). Mode A: completion orders of every parallel section, every pick costs one deviation, deviation bound 2 (quick) / 3 (thorough) — all 6 orders of any 3-task section are within bound 2; mode B: op-granular preemptive interleavings (shuttle runtime, own DFS scheduler) with preemption bound 1 (quick) / 2 (thorough, capped); mode S: the hand-built corpus again in a build where essential-vm and essential-check are compiled from a token-rewritten copy of /repo's sources whose std::sync Mutex/RwLock/Condvar/Once/OnceLock/atomic/mpsc are shuttle's, so every synchronisation operation inside the checked crates (not only VM-op and task boundaries) is a scheduling point; every departure from the default schedule costs one deviation, bound 2 (quick) / 3 (thorough, capped). In that build std's HashMap/HashSet are also re-bound to the same maps with a hasher whose seed the harness sets: each input's sequential run is repeated under 8 (quick) / 32 (thorough) seeds and must give the seed-0 result (iteration order of hash collections as an owned environment answer; a seed sweep, not an enumeration of orders). Oracle: the observation under every schedule equals the observation of the sequential (index-order) run: Ok/Err class, failing solution and node indices in order, gas, data outputs in order, computed mutations in order; for Vm::exec Ok(gas)+final pc/stack/memory or Err+index. Then the same inputs run free under real rayon pools of 1,2,3,4,8,16 threads x 3 (conformance of the stand-in): every observed result must be the one the exploration produced. states = distinct inputs, transitions = schedules executed, traces_validated_against_impl = schedules + free-running real-rayon runs. non-trivial = input with >= 2 schedules; distinct by input",
         assumptions: &[
             "which failing compute child's inner error is carried inside ComputeError::Exec is not compared (rayon keeps the first error to arrive)",
-            "interleavings are at the granularity of synchronisation operations (mode S) and VM operations (mode B); safe Rust has no data races, so finer interleavings cannot change results; HashMap iteration order is outside",
+            "interleavings are at the granularity of synchronisation operations (mode S) and VM operations (mode B); safe Rust has no data races, so finer interleavings cannot change results; HashMap iteration order is covered by a deterministic seed sweep in mode S only, and in modes A/B and the conformance pass it is std's RandomState",
             "mode S binds by token rewriting: a synchronisation primitive reached through a path other than std::sync (core::sync, a re-export, another crate) stays std's and is not a scheduling point; Arc stays std's",
             "the stand-in models rayon 1.10's result assembly (index-ordered collects, first-arrived error) — bound to the implementation by the conformance runs",
         ],
@@ -219,6 +219,9 @@ fn sync_level(tier: Tier, names: &[String], rep: &mut Report) {
         rep.cap("mode S unavailable: the rewritten copy of essential-vm/essential-check did not compile against shuttle's primitives on this tree (see the build note on stderr); modes A and B and the real-rayon conformance ran");
         return;
     }
+    if std::env::var("C02_HASH_UNAVAILABLE").is_ok() {
+        rep.cap("mode S ran without the hash-seed sweep: the copy did not compile with std's HashMap/HashSet re-bound to the seeded maps on this tree (see the build note on stderr)");
+    }
     if !exe.exists() {
         rep.machinery_errors.push(format!("sync-level binary {exe:?} not built"));
         return;
@@ -240,6 +243,10 @@ fn sync_level(tier: Tier, names: &[String], rep: &mut Report) {
         rep.transitions += n;
         rep.traces_validated_against_impl += n;
         rep.add_extra("schedules_mode_s", n);
+        let seeds = v["hash_seeds"].as_u64().unwrap_or(1);
+        rep.transitions += seeds - 1;
+        rep.traces_validated_against_impl += seeds - 1;
+        rep.add_extra("hash_seed_runs_mode_s", seeds - 1);
         if v["capped"].as_bool().unwrap_or(false) {
             rep.cap("mode S run cap hit on some inputs (count in inputs_capped_mode_s); below the cap the deviation-bounded DFS is complete");
             rep.add_extra("inputs_capped_mode_s", 1);
@@ -248,7 +255,11 @@ fn sync_level(tier: Tier, names: &[String], rep: &mut Report) {
         for bad in v["violations"].as_array().cloned().unwrap_or_default() {
             let kind = if v["kind"] == "ck-sync" { "checker" } else { "vm" };
             let choices: Vec<u32> = serde_json::from_value(bad["schedule"].clone()).unwrap_or_default();
-            report(kind, name, "S", choices, v["case"].clone(), want, bad["got"].as_str().unwrap_or(""), rep);
+            let seed = bad["hash_seed"].as_u64().unwrap_or(0);
+            let mut case = v["case"].clone();
+            case["hash_seed"] = json!(seed);
+            // "H": the sequential run under another hasher seed differs (iteration-order dependence)
+            report(kind, name, if seed == 0 { "S" } else { "H" }, choices, case, want, bad["got"].as_str().unwrap_or(""), rep);
         }
     }
     rep.add_extra("inputs_mode_s", inputs);
